@@ -65,6 +65,18 @@ def implParams (impl : Json) : List Json := jarr impl "params"
 
 def scanning (inp : Json) : Bool := jstr inp "cmd" == ":one" || jstr inp "cmd" == ":many"
 
+/-- `&i.Name` / `pq.Array(&i.Tags)` ↦ the struct field; lone destinations (`&name`, `&items`) have none -/
+def scanField (d : String) : Option String :=
+  match d.splitOn "&i." with
+  | [_, rest] => some (String.ofList (rest.toList.takeWhile (fun c => c.isAlphanum || c == '_')))
+  | _ => none
+
+def normIdent (s : String) : String := String.ofList ((s.toList.filter (· != '_')).map Char.toLower)
+
+/-- the field made from a column name: the name itself, possibly with a de-duplication number -/
+def fieldMatches (f c : String) : Bool :=
+  f == c || (f.startsWith c && ((f.drop c.length).toString.toList.all Char.isDigit))
+
 /-- C02: the generated method scans exactly the columns the embedded SQL returns, in order, and named
 columns keep their names -/
 def specC02 (inp impl : Json) : String :=
@@ -85,7 +97,17 @@ def specC02 (inp impl : Json) : String :=
         let bad := (cols.zip sem.shape).filter (fun (cj, ci) => ci.named && jstr cj "name" != ci.name)
         match bad with
         | (cj, ci) :: _ => s!"fail:result column {ci.name} is exposed as {jstr cj "name"}"
-        | [] => "ok"
+        | [] =>
+          -- Go level: the k-th Scan destination is the field made from the k-th column the embedded SQL returns
+          let badDest := if scanning inp && jbool go "ok" then
+              ((jstrs go "scan").zip sem.shape).find? (fun (d, ci) =>
+                match scanField d with
+                | some f => ci.named && !fieldMatches (normIdent f) (normIdent ci.name)
+                | none => false)
+            else none
+          match badDest with
+          | some (d, ci) => s!"fail:column {ci.name} of the embedded SQL is scanned into {d}"
+          | none => "ok"
 
 /-- identifiers of the statement (column / table / alias names), for the "names the offender" clause -/
 def stmtIdents (src : Node) : List String :=
